@@ -16,6 +16,8 @@ from contracts.compiler_c import compiler_obj
 from contracts.cli_c import unit_main_cli  # noqa
 from pyvc import driver
 from pyvc.engine import octstr, octval
+from contracts import c06
+from contracts.c06 import unit_data, unit_fill  # noqa
 
 ID = "C19"
 EXPLANATION = "names and values symbolic; number of symbols 0..3 and file-prefix numbers 1..2 enumerated"
@@ -195,10 +197,59 @@ def unit_rac(eng):
                 want[("/t/m%d.mac" % (int(m) - 1), nm.lower())] = v
         if seen != want:
             bad.append(("listed symbols differ from the symbol table", sorted(set(seen.items()) ^ set(want.items()))[:4]))
-    ob = dict(label="listing-of-multi-file-programs-with-negative-and-wide-constants-reads-back-as-the-symbol-table", kind="rac", status="proved" if not bad else "failed", secs=0.0,
+    # every listed label address is the address at which the byte following the label lies in the image: label Lk is followed by '.byte k';
+    # between the labels every kind of statement, also the operand-less forms of the data directives, in 1-3 files, link base given or not
+    fillers = ["nop", ".word", ".dword", ".byte", ".blkb 3", '.ascii "ab"', ".word 1, 2", "mov #1, r0", ".align 4", ".odd", ".dw", ".db", ".blkw 2", ".repeat 2 { .byte 7 }", "clr @#L1", ".word L0 - ."]
+    pjobs, pmeta = [], []
+    for t in range(10):
+        k, srcs = 0, []
+        for f in range(rnd.randrange(1, 4)):
+            lines = [".link %o" % rnd.choice([0o2000, 0o40000])] if (f == 0 and rnd.random() < 0.4) else []
+            for _ in range(rnd.randrange(2, 7)):
+                if rnd.random() < 0.5 or k < 2:
+                    lines.append("L%d:: .byte %d." % (k, k + 1))
+                    k += 1
+                else:
+                    fl = rnd.choice(fillers)
+                    if not fl.startswith((".byte", ".db", ".blkb", ".ascii", ".odd", ".align", ".repeat")):
+                        lines.append(".even")
+                    lines.append(fl)
+            srcs.append("\n".join(lines) + "\n")
+        pjobs.append({"kind": "asm", "sources": srcs, "names": ["/t/p%d.mac" % i for i in range(len(srcs))], "listing": True})
+        pmeta.append(k)
+    # fixed: every filler once between two labels, base left to the default and given
+    for pre in ("", ".link 3000\n"):
+        lines = []
+        for i, fl in enumerate(fillers):
+            lines.append("L%d:: .byte %d." % (i, i + 1))
+            if not fl.startswith((".byte", ".db", ".blkb", ".ascii", ".odd", ".align", ".repeat")):
+                lines.append(".even")
+            lines.append(fl)
+        lines.append("L%d:: .byte %d." % (len(fillers), len(fillers) + 1))
+        half = len(lines) // 2
+        pjobs.append({"kind": "asm", "sources": [pre + "\n".join(lines[:half]) + "\n", "\n".join(lines[half:]) + "\n"], "names": ["/t/p0.mac", "/t/p1.mac"], "listing": True})
+        pmeta.append(len(fillers) + 1)
+    pres = driver.native(pjobs, driver.tree_root())
+    for j, k, r in zip(pjobs, pmeta, pres):
+        if r["status"] != "ok":
+            bad.append((j["sources"], r["status"], [d[1] for d in r.get("diags", [])][:2]))
+            continue
+        img = bytes.fromhex(r["code_hex"])
+        listed = {}
+        for row in r["listing"].split("\n"):
+            num, _, nm = row.partition(" ")
+            if nm.startswith("L") and nm[1:].isdigit():
+                listed.setdefault(nm, []).append(int(num, 8))
+        for i in range(k):
+            a = listed.get("L%d" % i)
+            if a is None or len(a) != 1:
+                bad.append((j["sources"], "L%d" % i, "listed %s times" % (0 if a is None else len(a))))
+            elif not (0 <= a[0] - r["base"] < len(img)) or img[a[0] - r["base"]] != i + 1:
+                bad.append((j["sources"], "L%d listed at %o: the byte there is %s, the byte following the label is %d" % (i, a[0], img[a[0] - r["base"]] if 0 <= a[0] - r["base"] < len(img) else "outside the image", i + 1)))
+    ob = dict(label="listing-of-multi-file-programs-with-negative-and-wide-constants-reads-back-as-the-symbol-table;listed-label-addresses-hold-the-byte-following-the-label", kind="rac", status="proved" if not bad else "failed", secs=0.0,
               path=[], witness=None, detail=str(bad[:4]), events=[], smt2=None, backend="cpython-native", unit="listing-rac", func="Compiler.generate_listing (run-time check)",
-              cases=len(cases), cfg=dict(kind="rac"))
-    return dict(unit="listing-rac", func="Compiler.generate_listing (run-time check)", paths=len(cases), obligations=[ob], wall=0.0)
+              cases=len(cases) + len(pjobs), cfg=dict(kind="rac"))
+    return dict(unit="listing-rac", func="Compiler.generate_listing (run-time check)", paths=len(cases) + len(pjobs), obligations=[ob], wall=0.0)
 
 
 def units(tier):
@@ -216,6 +267,13 @@ def units(tier):
         for ne in (0, 1, 2):
             us.append(("main_cli[%s,lst,%d]" % (of, ne), "unit_main_cli", dict(outfile_kind=of, lst=True, implicit_bin=False, n_emitted=ne)))
     us.append(("main_cli[implicit-bin,lst]", "unit_main_cli", dict(outfile_kind=None, lst=True, implicit_bin=True, n_emitted=0)))
+    # a listed label address is where the following byte lies only if every statement before it announces the size it emits: the sized sites
+    # of the data directives (site obligations are issued automatically in these units; the full accounting invariant is C02's)
+    for cmd in c06.WIDTH:
+        for n in (0, 1, 2):
+            us.append(("site[%s,%d]" % (cmd, n), "unit_data", dict(cmd=cmd, n=n)))
+    for cmd in (".blkb", ".blkw", ".even", ".odd", ".align"):
+        us.append(("site[%s]" % cmd, "unit_fill", dict(cmd=cmd)))
     return us
 
 
